@@ -147,6 +147,10 @@ def Front.run {γ : Type} (f : Front) : List (Arrival γ) → List (Elem (Bin γ
     (if l then f.stepElem (β := γ) true r Bin.left e else f.stepElem (α := γ) false r Bin.right e).2
       ++ Front.run (if l then f.stepElem (β := γ) true r Bin.left e else f.stepElem (α := γ) false r Bin.right e).1 as
 
+/-- the data elements one side sent, in arrival order -/
+def sideData {γ : Type} (left : Bool) (arr : List (Arrival γ)) : List (Elem γ) :=
+  ((arr.filter fun p => p.1 == left).map (·.2.2)).filter Elem.isData
+
 end Noir.Zip
 
 /-! ### `merge` (src/operator/merge.rs:41-57): a binary start + `filter_map` dropping the end markers -/
